@@ -9,7 +9,8 @@
  *   op 'T' tick   'G' application trigger   'O' write the first mapped async object (value VALS[s])
  *      'Q' write it with its current value (no change)   'N' NMT start   'S' stop   'P' pre-operational
  *      'E' SDO write event time := VALS[s]   'I' SDO write inhibit time := VALS[s]*10
- *      'V' invalidate COB-ID (SDO)   'U' validate COB-ID (SDO)   'Y' SYNC frame            */
+ *      'V' invalidate COB-ID (SDO)   'U' validate COB-ID (SDO)   'Y' SYNC frame
+ *      'K' SDO write transmission type := TYPE2 (while invalid)                               */
 #define OD_SYNC
 #define OD_TPDO 1
 #include "od.h"
@@ -42,6 +43,10 @@ static uint32_t m_inh_end, m_ev_due, m_I, m_E;       /* ticks */
 static uint32_t m_I_cfg, m_E_cfg;                     /* as stored in the dictionary */
 static uint32_t m_tx;                                 /* expected emissions in this step */
 static uint8_t  m_sync_n, m_sync_c;
+static uint8_t  m_type = TTYPE;                       /* transmission type as stored in 1800h:2 */
+#ifndef TYPE2
+#define TYPE2 255
+#endif
 
 static uint32_t obj_val(uint16_t idx)
 {
@@ -71,13 +76,14 @@ static void m_transmit(void)
 static void m_trigger(void)
 {
     if (!m_op || !m_valid) { return; }
-    if (TTYPE <= 240) { return; }                     /* synchronous TPDOs are sent on SYNC only */
+    if (m_type <= 240) { return; }                    /* synchronous TPDOs are sent on SYNC only */
     if (m_inh_on) { m_pend = 1; return; }
     m_transmit();
 }
 static void m_activate(void)                          /* entering OPERATIONAL / re-validating */
 {
-    m_I = m_I_cfg; m_E = (TTYPE >= 254) ? m_E_cfg : 0;
+    m_I = m_I_cfg; m_E = (m_type >= 254) ? m_E_cfg : 0;
+    m_sync_n = (m_type <= 240) ? m_type : 0;
     m_inh_on = 0; m_pend = 0; m_ev_on = 0;
     if (m_valid && (m_E > 0)) { m_ev_on = 1; m_ev_due = now + m_E; }
     m_sync_c = 0;
@@ -146,13 +152,19 @@ void harness(void)
             if (m_op && m_valid) {
                 /* event timer restarted with the new time, a running inhibit time is stopped and a
                  * transmission it deferred is sent at once (see DESIGN.md, fix of COTPdoEventWrite) */
-                m_E = (TTYPE >= 254) ? vals[s] : 0; m_ev_on = 0; m_inh_on = 0;
+                m_E = (m_type >= 254) ? vals[s] : 0; m_ev_on = 0; m_inh_on = 0;
                 if (m_E > 0) { m_ev_on = 1; m_ev_due = now + m_E; }
                 if (m_pend) { m_transmit(); }
             }
         } else if (o == 'I') { sdo_wr(0x1800, 3, 2, vals[s] * 10u); sdo_rsp = 1; m_I_cfg = vals[s];
         } else if (o == 'V') { sdo_wr(0x1800, 1, 4, 0xC0000180u + OD_NODEID); sdo_rsp = 1; m_valid = 0; m_inh_on = 0; m_ev_on = 0; m_pend = 0;
         } else if (o == 'U') { sdo_wr(0x1800, 1, 4, 0x40000180u + OD_NODEID); sdo_rsp = 1; if (!m_valid) { m_valid = 1; if (m_op) { m_activate(); } }
+        } else if (o == 'K') {
+            /* transmission type := TYPE2, only used while the COB-ID is invalid (the write rule itself is C14's) */
+            sdo_wr(0x1800, 2, 1, TYPE2); sdo_rsp = 1;
+            CHECK(!m_valid, "H:type is rewritten only while the PDO is invalid");
+            CHECK(env_tx_n == 1 && env_tx[0].Data[0] == 0x60, "transmission type accepted while the PDO is invalid");
+            m_type = TYPE2;
         } else if (o == 'Y') {
             uint8_t d[8] = { 0, 0, 0, 0, 0, 0, 0, 0 };
             env_deliver(&node, 0x80, 0, d);
